@@ -39,7 +39,7 @@ def tasks(tier):
     M = 4 if tier == "quick" else 5
     for hd, bs, sl in itertools.product(PLACES, PLACES, PLACES):
         base = dict(M=M, alphabet=["x:T", "ok", "r:T"], handler=hd, before_sleep=bs, sleeper=sl,
-                    handler_free=True, max_unknown=None, strat_menu=[1])
+                    handler_free=True, max_unknown=None, strat_menu=[1, 0], strat_free=True)
         for e in SYNC:
             out.append({"family": "protocol", "cfg": base, "entry": e, "bound": 0})
         for e in ASYNC:
